@@ -199,6 +199,69 @@ def job_hist(cfgs):
 
 # ------------------------------------------------------------------ callers that depend on the exact text
 
+def run_pair(cfg):
+    """Two protocol objects in one process with overlapping requests: object A's request is answered by an exception
+    frame after `delay`, object B transmits (and is answered) `b_at` after A.  A is rejected when its frame arrives,
+    with one transmission and the right reason - whatever B does in between."""
+    import asyncio
+    from ..kernel import KLoop
+    from ..peer import PlanPeer
+    from ..proto import make_protocol, _exec
+    world.reset()
+    tr, T, R = cfg['transport'], 1, cfg['R']
+    framing = 'tcp' if tr == 'tcp' else 'rtu'
+    code = cfg['code']
+
+    def plan(k, req, now):
+        rq = wire.parse_request(req)
+        if rq['reg'] == 100:       # object A: refused
+            return [(cfg['delay'] * T, ('data', exc_frame(framing, 'read', code, req)))]
+        pl = bytes(2 * rq['count'])
+        f = wire.tcp_read_resp(req[:2], 0xF7, pl) if framing == 'tcp' else wire.rtu_read_resp(0xF7, pl)
+        return [(D0, ('data', f))]
+    peer = PlanPeer(plan)
+    loop = KLoop(peer)
+    pa, pb = make_protocol(tr, T, R, cfg['ka']), make_protocol(tr, T, R, cfg['ka'])
+    out = {}
+
+    async def a():
+        t0 = loop.time()
+        out['a'] = await _exec(pa.read_command(100, 3), pa)
+        out['ta'] = loop.time() - t0
+
+    async def b():
+        await asyncio.sleep(cfg['b_at'] * T)
+        for _ in range(cfg['b_requests']):
+            out['b'] = await _exec(pb.read_command(200, 2), pb)
+
+    async def both():
+        await asyncio.gather(a(), b())
+    st, _ = loop.run(both())
+    vio = []
+    ra = out.get('a')
+    na = sum(1 for t, fd, d, _ in peer.sent if wire.parse_request(d)['reg'] == 100)
+    if st == 'hang' or ra is None:
+        return [('terminates', 'hang')]
+    if ra[0] != 'exc' or ra[1] != 'RequestRejectedException' or ra[2] != wire.exception_reason(code):
+        vio.append(('rejected-exception', f'object A: {ra[:3]}'))
+    if na != 1:
+        vio.append(('no-retransmission', f'object A: {na} transmissions'))
+    elif abs(out['ta'] - cfg['delay'] * T) > 1e-6 and not (tr == 'tcp' and abs(out['ta'] - cfg['delay'] * T - 0.001) < 1e-6):
+        vio.append(('immediate', f"object A completed {out['ta']:.6f} after its transmission, the frame arrived after {cfg['delay'] * T}"))
+    return vio
+
+
+def pair_configs():
+    for tr in ('udp', 'tcp'):
+        for ka in (False, True):
+            for R in (0, 1):
+                for delay in (0.5, 0.9):
+                    for b_at in (0.0, 0.2, 0.45):
+                        for nb in (1, 2):
+                            for code in (2, 6):
+                                yield dict(transport=tr, ka=ka, R=R, delay=delay, b_at=b_at, b_requests=nb, code=code)
+
+
 def caller_part(rep):
     """ET / DT against a device refusing a block with code c: only code 2 (ILLEGAL DATA ADDRESS) may switch a
     capability off; any other code must surface as RequestRejectedException and leave the capability alone."""
@@ -253,6 +316,12 @@ def run(tier, seed, rep):
     _ses = sessions.explore_sessions(tier, seed, {'C08'}, light=True)
     rep.add_many([v for v in _ses.violations if v['prop'] == 'C08'])
     n_c = caller_part(rep)
+    n_p = 0
+    for cfg in pair_configs():
+        n_p += 1
+        for clause, cause in run_pair(cfg):
+            rep.add(f"{clause}/{cfg['transport']}/ka={int(cfg['ka'])}/second-object-active", clause,
+                    dict(part='pair', cfg=cfg), dict(cause=cause, **cfg))
     hc = list(hist_configs(tier))
     n_h = 0
     best = {}
@@ -297,7 +366,7 @@ def run(tier, seed, rep):
         rep.add_many(out)
     cov = dict(session_histories=_ses.executions, session_states=len(_ses.states), session_choice_points=_ses.choice_points,
                states=len(states), transitions=total, executions=total, traces_validated_against_impl=total,
-               validator_evaluations=n_e, caller_cases=n_c, history_cases=n_h, distinct_validator_outcomes=reasons,
+               validator_evaluations=n_e, caller_cases=n_c, two_object_cases=n_p, history_cases=n_h, distinct_validator_outcomes=reasons,
                distinct_outcome_classes=len(ocs), exhaustive=True,
                bound=f'codes {"0..255" if tier == "thorough" else "0..12,0x55,0x80,0x83,0xFF"} x read/write/write-multi x '
                      f'UDP-RTU/TCP x keep-alive x (T,R) grid {grid} x exception answering transmission k+1 for every '
@@ -315,6 +384,8 @@ def replay(r):
         out = sessions.replay(r)
         out['violations'] = [m for m in out['violations'] if m[0] == 'C08']
         return out
+    if r['part'] == 'pair':
+        return dict(violations=run_pair(r['cfg']))
     if r['part'] == 'caller':
         from ..findings import Report
         rp = Report('C08')
